@@ -294,15 +294,19 @@ func fatalLogged(stderr []byte) bool {
 	return bytes.Contains(stderr, []byte("FTL")) || bytes.Contains(stderr, []byte("App failed"))
 }
 
-// proveStdoutProof checks that stdout is exactly one JSON proof followed by a newline.
+// proveStdoutProof checks that stdout is exactly one JSON proof and nothing else: one JSON document (on one line or
+// several, with or without a final newline - the statement pins neither) surrounded by nothing but white space.
 func proveStdoutProof(stdout []byte) (coords, error) {
-	if len(stdout) == 0 || stdout[len(stdout)-1] != '\n' {
-		return coords{}, fmt.Errorf("stdout does not end with a newline: %q", tail(stdout, 80))
+	dec := json.NewDecoder(bytes.NewReader(stdout))
+	var doc json.RawMessage
+	if err := dec.Decode(&doc); err != nil {
+		return coords{}, fmt.Errorf("stdout does not start with a JSON document (%v): %q", err, tail(stdout, 80))
 	}
-	if bytes.Count(stdout, []byte("\n")) != 1 {
-		return coords{}, fmt.Errorf("stdout has %d lines, want exactly one JSON proof", bytes.Count(stdout, []byte("\n")))
+	rest := stdout[int(dec.InputOffset()):]
+	if len(bytes.TrimSpace(rest)) != 0 {
+		return coords{}, fmt.Errorf("stdout holds more than one JSON proof: %q follows it", tail(rest, 80))
 	}
-	return parseProofJSON(bytes.TrimSuffix(stdout, []byte("\n")))
+	return parseProofJSON(bytes.TrimSpace(doc))
 }
 
 func runC19(c c19Case) Result {
